@@ -62,3 +62,50 @@ pub fn run_parallel<S: Send + Sync + serde::Serialize + 'static>(
     println!("{{\"runs\":{n},\"events\":{total}}}");
     0
 }
+
+pub fn write_jsonl<T: serde::Serialize>(path: &str, items: &[T]) -> i32 {
+    let mut f = std::io::BufWriter::new(std::fs::File::create(path).unwrap());
+    for i in items {
+        serde_json::to_writer(&mut f, i).unwrap();
+        f.write_all(b"\n").unwrap();
+    }
+    println!("{{\"runs\":{}}}", items.len());
+    0
+}
+
+thread_local! {
+    /// when set, events are written (and flushed) to this file as they are produced, so that a
+    /// supervisor can tell where the process died or hung
+    pub static LIVE: std::cell::RefCell<Option<std::fs::File>> = const { std::cell::RefCell::new(None) };
+}
+
+pub fn live_event(v: &Value) {
+    LIVE.with(|l| {
+        if let Some(f) = l.borrow_mut().as_mut() {
+            let _ = serde_json::to_writer(&mut *f, v);
+            let _ = f.write_all(b"\n");
+            let _ = f.flush();
+        }
+    });
+}
+
+/// Sequential execution for runs that may kill or hang the process (C06): runs --from.. are
+/// executed on this thread, every event is appended to --out and flushed immediately.
+pub fn run_guarded<S: serde::Serialize>(opt: &HashMap<String, String>, specs: Vec<S>, f: fn(usize, &S, &mut Vec<Value>) -> Vec<Vec<u8>>) -> i32 {
+    let from: usize = get(opt, "from", 0);
+    let out = opt.get("out").cloned().unwrap();
+    let file = std::fs::OpenOptions::new().create(true).append(true).open(&out).unwrap();
+    LIVE.with(|l| *l.borrow_mut() = Some(file));
+    for k in from..specs.len() {
+        let mut ev = vec![];
+        let _ = f(k, &specs[k], &mut ev);
+        // events were streamed by the driver through live_event(); write the rest
+        for e in &ev {
+            if e.get("_streamed").is_none() {
+                live_event(e);
+            }
+        }
+        live_event(&serde_json::json!({"ev":"RunDone","run":k}));
+    }
+    0
+}
